@@ -219,6 +219,38 @@ def direct_failures(h, steps):
     return out
 
 
+def loadable(snap, base):
+    """What a load would return from a directory snapshot: the contents of base.0.pickle,
+    base.1.pickle, ... up to the first missing index."""
+    by = {e[0]: e[1:] for e in snap}
+    out, i = [], 0
+    while "%s.%d.pickle" % (base, i) in by:
+        out.append(by["%s.%d.pickle" % (base, i)])
+        i += 1
+    return out
+
+
+def failed_save_findings(h, steps):
+    """A save(overwrite=False) that RAISED (a target existed) but changed what a later load returns:
+    it had already written other targets (known finding C26-F1; the save is documented as not atomic)."""
+    out = []
+    for i, s in enumerate(steps):
+        op, res = s["op"], s["res"]
+        if op[0] != "save" or op[3] or any(r[0] == "ok" for r in res) or any(r[1] == "Deadlock" for r in res):
+            continue
+        b, a = loadable(s["before"], h["base"]), loadable(s["after"], h["base"])
+        if a != b:
+            out.append("step %d: save(overwrite=False) of %d samples on %d task(s) raised %s, yet a load now returns %d samples (before: %d): files of the failed save mixed with the existing ones" % (
+                i, sum(len(p) for p in op[1]), len(op[1]), res[0][1], len(a), len(b)))
+    return out
+
+
+BUILTIN_HISTORIES = [    # C26-F1: a longer list saved with overwrite=False on 2 tasks over an existing shorter one
+    {"base": "sl", "kind": "plain", "multi": False, "stale": [], "foreign": False, "seed": -1,
+     "ops": [["save", [[1, 2]], 90, True], ["save", [[10, 11], [12, 13]], 91, False], ["load", 1]]},
+]
+
+
 # --------------------------------------------------------------------------------------------------
 # generators
 # --------------------------------------------------------------------------------------------------
@@ -351,6 +383,7 @@ def stat_case(rng, n, ntask, ints):
 
 
 OPS = ["none", "half", "square", "exp"]      # identity, linear, and two non-linear operators
+OPS_MULTI = ["sub_square", "half", "sub_half", "exp"]    # MultiField samples: also operators on a sub-domain
 FLAGS = [(sa, me, sd) for sa in (False, True) for me in (False, True) for sd in (False, True) if (sa or me or sd)]
 
 
@@ -364,11 +397,17 @@ def make_op(name, dom):
         return ift.ScalingOperator(dom, 1.) ** 2
     if name == "exp":
         return ift.ScalingOperator(dom, 0.125).exp()
+    if name in ("sub_half", "sub_square"):
+        # an Operator defined on a strict SUB-domain of the samples' MultiDomain (applied with `force`)
+        sub = ift.makeDomain({"a": dom["a"]})
+        return ift.ScalingOperator(sub, 0.5) if name == "sub_half" else ift.ScalingOperator(sub, 1.) ** 2
     raise ValueError(name)
 
 
 def np_op(name, x):
     x = np.asarray(x, dtype=np.float64)
+    if name.startswith("sub_"):         # key "a" = the first two entries of a MultiField sample
+        return np_op(name[4:], x[:2])
     return {"none": lambda v: v, "half": lambda v: 0.5 * v, "square": lambda v: v ** 2,
             "exp": lambda v: np.exp(0.125 * v)}[name](x)
 
@@ -483,7 +522,7 @@ def hdf5_failure(o):
 def hdf5_args(rng, seed, i):
     """Every operator and both list kinds are visited in turn; sizes/tasks random."""
     return {"n": int(rng.integers(2, 6)) if i % 7 else 1, "ntask": int(rng.integers(1, 4)), "multi": bool((i // 4) % 2),
-            "op": OPS[i % 4], "lkind": "plain" if (i // 2) % 2 == 0 else "resid", "seed": [int(seed), 2626, i]}
+            "op": (OPS_MULTI if (i // 4) % 2 else OPS)[i % 4], "lkind": "plain" if (i // 2) % 2 == 0 else "resid", "seed": [int(seed), 2626, i]}
 
 
 def run_hdf5(args, workdir):
@@ -602,7 +641,7 @@ class C26(C.Check):
         from nifty.cl.minimization.sample_list import _consecutive_length
         rng = ctx.rng(26)
         work = os.path.join(ctx.run_dir(), "fs_p%d" % os.getpid())
-        hs = [c["history"] for c in ctx.corpus() if "history" in c]
+        hs = [c["history"] for c in ctx.corpus() if "history" in c] + [dict(h) for h in BUILTIN_HISTORIES]
         nh = 30 if ctx.quick else 200
         for i in range(nh):
             hs.append(gen_history(rng, ctx.seed * 1000 + i, int(rng.integers(3, 9))))
@@ -735,6 +774,9 @@ class C26(C.Check):
         n = 0
         for h, steps in self.hist:
             n += 1
+            for f in ([] if any(x["input"].get("finding") == "C26-F1" for x in res.failing) else failed_save_findings(h, steps)[:1]):
+                res.add_failing({"fn": "save(overwrite=False)", "class": "failed-save-changes-loadable-list"}, f,
+                                {"kind": "history", "history": h, "finding": "C26-F1"})
             for f in direct_failures(h, steps)[:1]:
                 res.add_failing({"fn": "SampleList.save/load" if h["kind"] == "plain" else "ResidualSampleList.save/load"},
                                 f, {"kind": "history", "history": h})
@@ -788,6 +830,8 @@ class C26(C.Check):
         i = rp["input"]
         if i["kind"] == "history":
             steps = run_history(i["history"], os.path.join(ctx.run_dir(), "replay_p%d" % os.getpid()))
+            if i.get("finding") == "C26-F1":
+                return bool(failed_save_findings(i["history"], steps))
             return bool(direct_failures(i["history"], steps))
         if i["kind"] == "hdf5":
             return hdf5_failure(run_hdf5(i, os.path.join(ctx.run_dir(), "replay_h5_p%d" % os.getpid()))) is not None
